@@ -17,7 +17,7 @@ pub struct BudgetExceeded {
 #[derive(Debug, Clone)]
 pub struct ContractViolation(pub String);
 
-pub const N_PROBES: usize = 42;
+pub const N_PROBES: usize = 43;
 
 #[derive(Clone, Copy, Debug, PartialEq, Eq)]
 #[repr(usize)]
@@ -65,6 +65,7 @@ pub enum Probe {
     EscapeSeen,
     NestedDecodeInRead,
     NestedDecodeInTrap,
+    NestedParse,
 }
 
 pub const PROBE_NAMES: [&str; N_PROBES] = [
@@ -110,12 +111,13 @@ pub const PROBE_NAMES: [&str; N_PROBES] = [
     "escape_sequence_scanned",
     "nested_decode_from_reader",
     "nested_decode_from_trap_callback",
+    "nested_parse_from_input_seam",
 ];
 
 /// Which probes count as *injected faults* (reported under fault_counts) as opposed to
 /// rare-condition probes.
 pub fn is_fault(p: usize) -> bool {
-    const F: [Probe; 19] = [
+    const F: [Probe; 20] = [
         Probe::BreakPushedBack,
         Probe::BreakLeftUnconsumed,
         Probe::SourceEofEarly,
@@ -135,6 +137,7 @@ pub fn is_fault(p: usize) -> bool {
         Probe::TrapBreakMsg,
         Probe::NestedDecodeInRead,
         Probe::NestedDecodeInTrap,
+        Probe::NestedParse,
     ];
     F.iter().any(|f| *f as usize == p)
 }
@@ -148,6 +151,43 @@ thread_local! {
     static RUN_FAULTS: Cell<u64> = const { Cell::new(0) };
 }
 
+thread_local! {
+    /// The seam call at which the environment uses the library itself (u64::MAX: never).
+    static NEST_AT: Cell<u64> = const { Cell::new(u64::MAX) };
+    static NEST_WRONG: RefCell<Option<String>> = const { RefCell::new(None) };
+}
+/// What the environment does when it uses the library itself: returns a description if the
+/// nested use gave a wrong result. Installed by `trace`.
+pub static NESTED_USE: std::sync::OnceLock<fn() -> Option<String>> = std::sync::OnceLock::new();
+
+/// Draw (from the tape) whether and at which seam call of the coming execution the environment
+/// on the far side of the Input seam parses and loads a small document of its own. The parser
+/// has no state outside its own value, so this must not disturb either of them.
+pub fn arm_nested() {
+    let at = match choose(8) {
+        6 => 1 + u64::from(choose(64)),
+        7 => 1 + u64::from(choose(4096)),
+        _ => u64::MAX,
+    };
+    NEST_AT.with(|c| c.set(at));
+}
+pub fn disarm_nested() {
+    NEST_AT.with(|c| c.set(u64::MAX));
+}
+pub fn take_nested_wrong() -> Option<String> {
+    NEST_WRONG.with(|w| w.borrow_mut().take())
+}
+#[cold]
+fn nested_use() {
+    NEST_AT.with(|c| c.set(u64::MAX));
+    probe(Probe::NestedParse);
+    if let Some(f) = NESTED_USE.get() {
+        if let Some(msg) = f() {
+            NEST_WRONG.with(|w| *w.borrow_mut() = Some(msg));
+        }
+    }
+}
+
 #[inline]
 pub fn tick() {
     let t = TICKS.with(|c| {
@@ -155,6 +195,9 @@ pub fn tick() {
         c.set(v);
         v
     });
+    if t == NEST_AT.with(Cell::get) {
+        nested_use();
+    }
     if t > BUDGET.with(Cell::get) {
         // Disarm so that unwinding code that touches a seam cannot panic again.
         BUDGET.with(|b| b.set(u64::MAX));
@@ -200,6 +243,8 @@ pub fn begin(budget: u64, tape: Tape) {
     FP.with(|c| c.set(Fp::default().0));
     TAPE.with(|t| *t.borrow_mut() = Some(tape));
     RUN_FAULTS.with(|c| c.set(0));
+    NEST_AT.with(|c| c.set(u64::MAX));
+    NEST_WRONG.with(|w| *w.borrow_mut() = None);
 }
 
 /// Reset only the clock (used between the candidates of one C10 run).
